@@ -22,7 +22,14 @@ P = {'id': 'C02',
               'dict_compressor_roundtrip',
               'huffman_compressor_roundtrip',
               'huffman_tree_serialize_roundtrip',
-              'huffman_size_u16_refuted'],
+              'huffman_size_u16_refuted',
+              'realtime_block_roundtrip',
+              'realtime_tag_names_producer',
+              'realtime_batch_roundtrip',
+              'adaptive_roundtrip',
+              'adaptive_history_total',
+              'adaptive_zero_interval_refuted',
+              'realtime_stale_block_limit'],
  'coq_deps': ['C01'],
  'trusted': ['modelled (M+S): src/compression/dict_zip/compression_types.rs (CompressionType::supports, Match::validate, BitWriter, BitReader, '
              'encode/decode_variable_length, encode_match, decode_match, encode_matches, decode_matches) bit-exact; src/compression/mod.rs '
